@@ -43,11 +43,12 @@ FINGERPRINT = {'cellmlmanip/parser.py': ['Parser.transform_constants', 'Parser._
                                        'Model.get_derived_quantities', 'Model.get_equations_for', 'Model.graph',
                                        'Model.add_variable', 'Model.find_variables_and_derivatives']}
 BUNDLED = os.path.join(REPO, 'tests', 'cellml_files')
+THREADS = int(os.environ.get('C15_THREADS', '3'))
 
 # ---------------------------------------------------------------------------------------------- the dump (subprocess)
 # Runs in a fresh interpreter (env PYTHONHASHSEED=k): loads every path given and prints one JSON list. Public API only.
 DUMP_SRC = r'''
-import sys, json, logging
+import sys, json, logging, re
 logging.disable(logging.CRITICAL)
 import cellmlmanip
 
@@ -67,7 +68,8 @@ def dump(path):
     o = {'outcome': 'ok'}
     vs = list(m.variables())
     o['variables'] = [v.name for v in vs]
-    o['vars_full'] = [[v.name, str(v.units), None if v.initial_value is None else repr(float(v.initial_value)),
+    o['vars_full'] = [[v.name, re.sub(r'store\d+_', '', str(v.units)),   # the store id counts models per process (C16)
+                       None if v.initial_value is None else repr(float(v.initial_value)),
                        v.cmeta_id] for v in vs]
     o['equations'] = [str(e) for e in m.equations]
     o['eq_lhs'] = [nm(e.lhs) for e in m.equations]
@@ -115,7 +117,7 @@ print(json.dumps([dump(p) for p in sys.argv[1:]]))
 # the order in which dumps are compared: the first differing entry names the oracle key
 QUERIES = ['outcome', 'query_err', 'variables', 'vars_full', 'equations', 'states', 'state_inits', 'derivs', 'derived',
            'free', 'states_unsorted', 'derivs_unsorted', 'derived_unsorted', 'eqsfor', 'eqsfor_all', 'eqsfor_all_units',
-           'eqsfor_direct', 'graph_edges', 'graph_nodes', 'sorted_follow_variables', 'eq_leaves', 'eq_leaves_num']
+           'eqsfor_direct', 'graph_edges', 'sorted_follow_variables', 'eq_leaves', 'eq_leaves_num', 'graph_nodes']
 
 
 def run_dump(paths, seed, timeout=900):
@@ -292,7 +294,8 @@ _EQ_ORDER = {'equations': 'set', 'states_unsorted': 'set', 'derivs_unsorted': 's
              'graph_nodes': 'set', 'eq_leaves': 'skip', 'eq_leaves_num': 'skip'}
 _VAR_ORDER = dict(_EQ_ORDER, variables='set', vars_full='set', states='set', state_inits='set', derivs='set',
                   derived='set', eqsfor='set', eqsfor_direct='set')
-PERM_RULES = {'units': {}, 'groups': {}, 'ends': {}, 'toplevel': {},
+_SAME = {'graph_nodes': 'set'}      # the order of graph.nodes is not even stable between processes (known finding)
+PERM_RULES = {'units': _SAME, 'groups': _SAME, 'ends': _SAME, 'toplevel': _SAME,
               'connections': {'equations': 'set', 'derived_unsorted': 'set', 'graph_nodes': 'set', 'eq_leaves': 'skip',
                               'eq_leaves_num': 'skip'},
               'maths': _EQ_ORDER, 'equations': _EQ_ORDER, 'components': _VAR_ORDER, 'variables': _VAR_ORDER}
@@ -482,11 +485,15 @@ def impl(case):
             seeds = seeds[:2]                 # a refused document: only the outcome class can vary
         perm_seeds = [s for s in case.get('perm_seeds', []) if s in seeds] if first['outcome'] == 'ok' else []
         variants = [k for k in texts if k != 'base']
-        for s in seeds:
-            ks = (['base'] if s != seeds[0] else []) + (variants if s in perm_seeds else [])
-            if not ks:
-                continue
-            for k, d in zip(ks, run_dump([paths[k] for k in ks], s)):
+        # one fresh interpreter per (seed, chunk of texts); a few at a time (the big bundled models take seconds each)
+        tasks = [(s, ['base']) for s in seeds[1:]]
+        for s in perm_seeds:
+            tasks += [(s, variants[i:i + 3]) for i in range(0, len(variants), 3)]
+        from concurrent.futures import ThreadPoolExecutor
+        with ThreadPoolExecutor(max_workers=THREADS) as ex:
+            results = list(ex.map(lambda t: run_dump([paths[k] for k in t[1]], t[0]), tasks))
+        for (s, ks), ds in zip(tasks, results):
+            for k, d in zip(ks, ds):
                 runs.append({'variant': k, 'seed': s, 'dump': d})
     finally:
         shutil.rmtree(tmp, ignore_errors=True)
